@@ -32,9 +32,12 @@ _UPOW = z3.Function("upow", z3.RealSort(), z3.RealSort(), z3.RealSort())
 _UROUND = z3.Function("uround", z3.RealSort(), z3.IntSort(), z3.RealSort())
 
 
-def upow(a, b):
-    used("pow (uninterpreted)")
-    return _UPOW(to_real(a), to_real(b))
+def upow(a, b, st=None):
+    used("pow / np.power: uninterpreted function of (base, exponent), positive for a positive base")
+    t = _UPOW(to_real(a), to_real(b))
+    if st is not None:
+        st.fact(z3.Implies(to_real(a) > 0, t > 0))
+    return t
 
 
 # ------------------------------------------------------------------------------------------------ arrays
@@ -641,7 +644,7 @@ def b_pow(I, st, args, kw, node):
     a, b = args[:2]
     if isinstance(a, (int, float)) and isinstance(b, (int, float)):
         return pow(a, b)
-    return upow(a, b)
+    return upow(a, b, st)
 
 
 def b_str(I, st, args, kw, node):
@@ -675,9 +678,34 @@ def b_default_rng(I, st, args, kw, node):
     return o
 
 
+_PRIME = z3.Function("nth_prime", z3.IntSort(), z3.IntSort())
+
+
+def _prime(st, c):
+    used("spec function prime(c): the c-th prime (0-based), only known to be > 1")
+    t = _PRIME(to_z3(c))
+    st.fact(t > 1)
+    return t
+
+
 def _hint(st, x):
     t = HINT(to_z3(x))
     st.fact(t)   # hint(x) is true by definition
+    return t
+
+
+_RI = z3.Function("radical_inverse", z3.IntSort(), z3.IntSort(), z3.RealSort())
+
+
+def spec_ri(I, st, a, k, n):
+    """ri(n, b): radical inverse of n in base b.  ri(n,b) = 0 for n <= 0, else (n mod b)/b + ri(n div b, b)/b.
+    Every application gets its one-level unfolding as a fact (fuel 1)."""
+    used("spec function ri (radical inverse): recursive definition, unfolded once per application")
+    nn, bb = to_z3(a[0]), to_z3(a[1])
+    t = _RI(nn, bb)
+    st.fact(z3.Implies(nn <= 0, t == 0))
+    st.fact(z3.Implies(z3.And(nn > 0, bb > 1), t == z3.ToReal(nn % bb) / z3.ToReal(bb) + _RI(nn / bb, bb) / z3.ToReal(bb)))
+    st.fact(z3.Implies(bb > 1, z3.And(t >= 0, t < 1)))
     return t
 
 
@@ -696,6 +724,10 @@ BUILTIN_FUNCS = {
     "__rng_int": lambda I, st, a, k, n: _RNG_INT(*[_z(x) for x in a]),
     "__rng_real": lambda I, st, a, k, n: _RNG_REAL(_z(a[0]), _z(a[1])),
     "default_rng": b_default_rng,
+    "ri": spec_ri,
+    "upow": lambda I, st, a, k, n: upow(a[0], a[1], st),
+    "frac": lambda I, st, a, k, n: to_real(a[0]) - z3.ToReal(z3.ToInt(to_real(a[0]))),
+    "prime": lambda I, st, a, k, n: _prime(st, a[0]),
     "hint": lambda I, st, a, k, n: _hint(st, a[0]),
     "np_round": lambda I, st, a, k, n: _UROUND(to_real(a[0]), _z(a[1])),
     "len": b_len, "range": b_range, "enumerate": b_enumerate, "zip": b_zip,
@@ -917,9 +949,12 @@ def np_stack(axis0_only=True, name="np.vstack"):
 
 def np_repeat(I, st, args, kw, node):
     used("np.repeat(a, k, axis=0): row r of the result is row r // k of a")
-    a = I.arr_of(args[0], st)
     k = args[1] if len(args) > 1 else kw.get("repeats")
     ax = kw.get("axis", args[2] if len(args) > 2 else None)
+    if _arr(I, st, args[0]) is None and (ax is None or ax is NONE):
+        v0 = args[0]   # np.repeat(scalar, n): n copies
+        return st.alloc(Arr((k,), lambda *idx: v0, kind="ndarray", etype=etype_of(v0)), "arr")
+    a = I.arr_of(args[0], st)
     if I.concrete_int(ax) != 0:
         raise Unsupported("np.repeat axis != 0")
     kz = to_z3(k)
@@ -928,8 +963,53 @@ def np_repeat(I, st, args, kw, node):
                         lambda *idx: a.elem(to_z3(idx[0]) / kz, *idx[1:]), kind="ndarray", etype=a.etype), "arr")
 
 
+def np_divmod(I, st, args, kw, node):
+    used("np.divmod(i, b): elementwise floor division and remainder (operands >= 0, divisor > 0 required)")
+    a, b = args[0], args[1]
+    A, B = _arr(I, st, a), _arr(I, st, b)
+    if not I.in_contract and not I.dry:
+        # obligation: divisor positive, dividend non-negative (then floor == Euclidean division)
+        probe = elementwise2(I, st, lambda x, y: z3.And(to_z3(y) > 0, to_z3(x) >= 0), a, b, node)
+        P = I.arr_of(probe, st)
+        js = [z3.Int(fresh_name("dm")) for _ in range(P.ndim)]
+        rng = zand(*[zand(j >= 0, j < to_z3(m_)) for j, m_ in zip(js, P.shape)])
+        I.oblige(st, zimplies(rng, P.elem(*js)), "S", "divmod-operands-in-range", node)
+    q = elementwise2(I, st, lambda x, y: to_z3(x) / to_z3(y), a, b, node)
+    r = elementwise2(I, st, lambda x, y: to_z3(x) % to_z3(y), a, b, node)
+    return VTuple([q, r])
+
+
 def np_reshape(I, st, args, kw, node):
     raise Unsupported("np.reshape (handled by dedicated contracts only)")
+
+
+def m_reshape(I, st, recv, args, kw, node):
+    """a.reshape((1, -1)) / a.reshape((-1, 1)) of a 1-d array (row / column vector); other shapes unsupported."""
+    used("ndarray.reshape((1,-1)) / ((-1,1)) of a 1-d array")
+    a = I.arr_of(recv, st)
+    shp = args[0] if len(args) == 1 else VTuple(list(args))
+    if not isinstance(shp, VTuple) or a.ndim != 1 or len(shp.items) != 2:
+        raise Unsupported("reshape form")
+    x, y = [I.concrete_int(v) for v in shp.items]
+    if x == 1 and y == -1:
+        return st.alloc(Arr((1, a.shape[0]), lambda r, c: a.elem(c), kind="ndarray", etype=a.etype), "arr")
+    if x == -1 and y == 1:
+        return st.alloc(Arr((a.shape[0], 1), lambda r, c: a.elem(r), kind="ndarray", etype=a.etype), "arr")
+    raise Unsupported("reshape form")
+
+
+def m_dot(I, st, recv, args, kw, node):
+    used("ndarray.dot of an (n,1) by a (1,d) matrix: outer product")
+    a, b = I.arr_of(recv, st), I.arr_of(args[0], st)
+    if a.ndim == 2 and b.ndim == 2 and I.concrete_int(a.shape[1]) == 1 and I.concrete_int(b.shape[0]) == 1:
+        return st.alloc(Arr((a.shape[0], b.shape[1]),
+                            lambda r, c: to_real(a.elem(r, 0)) * to_real(b.elem(0, c)), kind="ndarray", etype="real"), "arr")
+    raise Unsupported("dot of general matrices")
+
+
+def np_power(I, st, args, kw, node):
+    used("np.power / pow: uninterpreted function of (base, exponent)")
+    return elementwise2(I, st, lambda x, y: upow(x, y, st), args[0], args[1], node)
 
 
 LIB = {
@@ -950,6 +1030,8 @@ LIB = {
     "np.argsort": np_argsort,
     "np.vstack": np_stack(), "np.hstack": np_stack(), "np.concatenate": np_stack(),
     "np.repeat": np_repeat,
+    "np.divmod": np_divmod,
+    "np.power": np_power,
     "time.time": lambda I, st, a, k, n: z3.Real(fresh_name("now")),
     "np.average": lambda I, st, a, k, n: (used("np.average/np.mean: some real (pure)"), z3.Real(fresh_name("avg")))[1],
     "np.mean": lambda I, st, a, k, n: (used("np.average/np.mean: some real (pure)"), z3.Real(fresh_name("avg")))[1],
@@ -1095,7 +1177,7 @@ def m_copy(I, st, recv, args, kw, node):
 
 VALUE_METHODS = {
     "any": m_any, "all": lambda I, st, r, a, k, n: m_any(I, st, r, a, k, n, is_any=False),
-    "append": m_append, "values": m_values, "tolist": m_tolist, "copy": m_copy,
+    "append": m_append, "values": m_values, "tolist": m_tolist, "copy": m_copy, "reshape": m_reshape, "dot": m_dot,
 }
 
 
